@@ -43,6 +43,10 @@ type BootPlan struct {
 	ConfigPath string     `json:"config_path"` // "" = default location, no -config argument
 	ConfigPos  int        `json:"config_pos,omitempty"` // the -config argument follows this many other arguments (0: first)
 	FileFault  string     `json:"file_fault"`  // "" | absent | unreadable | empty
+	// environment variables that are not the variable of a scalar setting (the
+	// variable named after a list-valued setting, an unknown VFLOW_ name): the
+	// statement gives them no influence on any other setting
+	ExtraEnv [][2]string `json:"extra_env,omitempty"`
 	FullBoot   bool       `json:"full_boot"`   // run main() and observe behaviour, else GetOptions only
 	Seed       int64      `json:"seed"`
 }
@@ -65,6 +69,16 @@ func discoverKeys(o *Options, fs *flag.FlagSet) []optKey {
 	for i := 0; i < t.NumField(); i++ {
 		y := t.Field(i).Tag.Get("yaml")
 		k := v.Field(i).Kind()
+		if y != "" && k != reflect.Int && k != reflect.String && k != reflect.Bool {
+			n := "VFLOW_" + strings.ReplaceAll(strings.ToUpper(y), "-", "_")
+			seen := false
+			for _, o := range bootOtherEnv {
+				seen = seen || o == n
+			}
+			if !seen {
+				bootOtherEnv = append(bootOtherEnv, n)
+			}
+		}
 		if y == "" || (k != reflect.Int && k != reflect.String && k != reflect.Bool) {
 			continue
 		}
@@ -80,6 +94,9 @@ func discoverKeys(o *Options, fs *flag.FlagSet) []optKey {
 	}
 	return keys
 }
+
+// bootOtherEnv: variables named after settings that are not scalars.
+var bootOtherEnv []string
 
 type bootObs struct {
 	Opts     map[string]string // effective value per yaml key (GetOptions)
@@ -156,6 +173,11 @@ func runBoot(p *BootPlan, ch *simrt.Choices, keys []optKey) *bootObs {
 		}
 		if c.HasFlag && k.Flag != "" {
 			args = append(args, "-"+k.Flag+"="+c.Flag)
+		}
+	}
+	for _, e := range p.ExtraEnv {
+		if _, ok := env[e[0]]; !ok {
+			env[e[0]] = e[1]
 		}
 	}
 	if p.FullBoot {
@@ -497,6 +519,12 @@ func genBootPlan(seed int64, keys []optKey) *BootPlan {
 			c.FileIsDefault, c.FlagIsDefault = true, true
 		}
 		p.Cases = append(p.Cases, c)
+	}
+	if r.Intn(3) == 0 {
+		names := append(append([]string(nil), bootOtherEnv...), "VFLOW_NO_SUCH_KEY", "VFLOW_SFLOW", "HOME")
+		for i, n := 0, 1+r.Intn(2); i < n; i++ {
+			p.ExtraEnv = append(p.ExtraEnv, [2]string{names[r.Intn(len(names))], []string{"1,2", "[1,2]", "x", "0", "true"}[r.Intn(5)]})
+		}
 	}
 	return p
 }
